@@ -421,6 +421,46 @@ def permute_datalists(pkg: Package, rng, how="random"):
     return n
 
 
+def permute_tile_refs(pkg: Package, rng):
+    """Permute the order in which a table lists its tiles (each reference carries its own tileid).  -> tables changed."""
+    n = 0
+    for ident, o in list(pkg.objs.items()):
+        if type(o.msg).__name__ != "TableModelArchive":
+            continue
+        refs = list(o.msg.base_data_store.tiles.tiles)
+        if len(refs) < 2:
+            continue
+        order = refs[::-1] if rng.random() < .5 else rng.sample(refs, len(refs))
+        if [r.tileid for r in order] == [r.tileid for r in refs]:
+            order = refs[::-1]
+        m = type(o.msg)()
+        m.CopyFrom(o.msg)
+        del m.base_data_store.tiles.tiles[:]
+        m.base_data_store.tiles.tiles.extend(order)
+        set_message(pkg, ident, m)
+        n += 1
+    return n
+
+
+def permute_row_infos(pkg: Package, rng):
+    """Permute the order of the row records inside every tile (each record declares its own tile_row_index).  -> tiles changed."""
+    n = 0
+    for ident, o in list(pkg.objs.items()):
+        if type(o.msg).__name__ != "Tile":
+            continue
+        rows = list(o.msg.rowInfos)
+        if len(rows) < 2:
+            continue
+        order = rows[::-1] if rng.random() < .5 else rng.sample(rows, len(rows))
+        m = type(o.msg)()
+        m.CopyFrom(o.msg)
+        del m.rowInfos[:]
+        m.rowInfos.extend(order)
+        set_message(pkg, ident, m)
+        n += 1
+    return n
+
+
 def convert_offsets(pkg: Package, to_wide: bool):
     """narrow -> wide where every offset is a multiple of 4; wide -> narrow where every offset*4 < 32768.
     -> (rows converted, rows not representable)"""
